@@ -592,8 +592,8 @@ def implicit(m: Model, d: Data):
       outputs=[d.qLU],
     )
 
-    # 3. Compute RNE derivatives, scale by timestep, and subtract in-place from qLU
-    derivative.deriv_rne_vel(m, d, d.qLU, flg_subtract=True)
+    # 3. Add dt * d(qfrc_bias)/d(qvel): qLU = M - dt * qDeriv with qDeriv = d(passive + actuator - bias)/d(qvel)
+    derivative.deriv_rne_vel(m, d, d.qLU, flg_subtract=False)
 
     # 4. Factorize and solve: qacc = qLU \ Ma
     qacc = wp.empty((d.nworld, m.nv), dtype=float)
